@@ -25,19 +25,31 @@ def multi(v):
     return [cps(x) for x in v]
 
 
+def reshape(kw, shape):
+    if not shape:
+        return kw
+    out = dict(kw)
+    for k, kind in shape.items():
+        v = list(kw[k])
+        out[k] = {'tuple': tuple(v), 'gen': (x for x in v), 'iter': iter(v), 'map': map(str, v), 'dictkeys': dict.fromkeys(v),
+                  'deque': __import__('collections').deque(v)}[kind]
+    return out
+
+
 def helper_obs(spec):
     common.use_repo()
     from segno import helpers
     h, kw = spec['helper'], spec['kw']
+    ckw = reshape(kw, spec.get('shape'))         # the documented "iterable of strings" in other container kinds (one-shot iterators included)
     o = {'_spec': spec, 'helper': h, 'outcome': {'status': 'ok'}}
     try:
         if h == 'wifi':
-            payload = helpers.make_wifi_data(**kw)
+            payload = helpers.make_wifi_data(**ckw)
             o['a'] = {'ssid': cps(kw['ssid']), 'password': opt(kw.get('password')), 'security': opt(kw.get('security')) if kw.get('security') else [],
                       'hidden': bool(kw.get('hidden', False))}
             o['payload'] = cps(payload)
         elif h == 'mecard':
-            payload = helpers.make_mecard_data(**kw)
+            payload = helpers.make_mecard_data(**ckw)
             bd = kw.get('birthday')
             if isinstance(bd, (datetime.date, datetime.datetime)):
                 bd = bd.strftime('%Y%m%d')
@@ -48,7 +60,7 @@ def helper_obs(spec):
                       'adr': [cps(kw.get(k) or '') for k in ('pobox', 'roomno', 'houseno', 'city', 'prefecture', 'zipcode', 'country')]}
             o['payload'] = cps(payload)
         elif h == 'vcard':
-            payload = helpers.make_vcard_data(**kw)
+            payload = helpers.make_vcard_data(**ckw)
             lines = [[cps('N'), cps(kw['name']), True], [cps('FN'), cps(kw['displayname'].replace('\r', '')), False]]
 
             def add(name, val, structured=False):
@@ -102,7 +114,7 @@ def helper_obs(spec):
             o['a'] = {'lat': triple(kw['lat']), 'lng': triple(kw['lng'])}
             o['payload'] = cps(payload)
         elif h == 'email':
-            payload = helpers.make_make_email_data(**kw)
+            payload = helpers.make_make_email_data(**ckw)
 
             def lst(v):
                 return [] if not v else ([cps(v)] if isinstance(v, str) else [cps(x) for x in v])
@@ -111,7 +123,7 @@ def helper_obs(spec):
                       'body': [] if kw.get('body') is None else [list(kw['body'].encode('utf-8'))]}
             o['payload'] = cps(payload)
         elif h == 'epc':
-            data = helpers._make_epc_qr_data(**kw)
+            data = helpers._make_epc_qr_data(**ckw)
             amount = decimal.Decimal(str(kw['amount']))
             euros = int(amount)
             cents = int((amount - euros) * 100)
@@ -151,8 +163,8 @@ def gen_specs(tier, seed_):
     r = gen.rng(seed_, 'C16')
     specs = []
 
-    def add(h, must_refuse=False, **kw):
-        specs.append({'helper': h, 'kw': kw, 'must_refuse': must_refuse})
+    def add(h, must_refuse=False, shape=None, **kw):
+        specs.append({'helper': h, 'kw': kw, 'must_refuse': must_refuse, 'shape': shape})
     # grammar strings: all strings of length <= 3 (quick: <= 2 plus samples of 3) over the delimiter / escape alphabet
     alpha = 'a;:\\",\n'
     strings = [''.join(p) for k in range(1, 3) for p in itertools.product(alpha, repeat=k)]
@@ -189,6 +201,17 @@ def gen_specs(tier, seed_):
         add('email', to=['a@example.org', 'b@example.org'], cc='c@example.org', subject=s, body=r.choice(texts))
         add('email', to='me@example.org', bcc=['x@example.org', 'y@example.org'], body=s)
     add('email', to='me@example.org')
+    # "str, iterable of strings, or None": the same values in every container kind, one-shot iterators included
+    for kind in ('tuple', 'gen', 'iter', 'map', 'dictkeys', 'deque'):
+        add('email', to=['a@example.org', 'b@example.org'], cc=['c@example.org'], bcc=['x@example.org', 'y@example.org'], subject='S', body='B',
+            shape={'to': kind, 'cc': kind, 'bcc': kind})
+        add('email', to='me@example.org', cc=['c@example.org', 'd@example.org'], shape={'cc': kind})
+        add('email', to='me@example.org', bcc=['c@example.org'], subject='x', shape={'bcc': kind})
+        add('mecard', name='N', phone=['1', '2'], email=['a@example.org', 'b@example.org'], url=['http://a.example', 'http://b.example'], videophone=['3'],
+            nickname='Nick', shape={'phone': kind, 'email': kind, 'url': kind, 'videophone': kind})
+        add('vcard', name='Doe;John', displayname='JD', email=['a@example.org', 'b@example.org'], phone=['1', '2'], fax=['3'], url=['http://a.example'],
+            title=['T1', 'T2'], cellphone=['4'], homephone=['5'], workphone=['6', '7'], photo_uri=['http://example.org/p.png'], videophone=['8'],
+            shape={k: kind for k in ('email', 'phone', 'fax', 'url', 'title', 'cellphone', 'homephone', 'workphone', 'photo_uri', 'videophone')})
     add('email', to='me@example.org', cc='c@example.org')
     add('email', to='', must_refuse=True)
     # EPC
